@@ -176,7 +176,11 @@ class AccountingEngine:
 
         # If the new taxable event is newer than the old one (and it's not earn-typed) check if there is a newer acquired lot that
         # meets the accounting method criteria (but it's still older than the new taxable event).
-        if taxable_event and taxable_event.timestamp < new_taxable_event.timestamp:
+        # The same applies if the new taxable event falls in a different year than the old one (this can happen even if the two have
+        # the same timestamp, when their timezones differ): the accounting method may change from one year to the next.
+        if taxable_event and (
+            taxable_event.timestamp < new_taxable_event.timestamp or taxable_event.timestamp.year != new_taxable_event.timestamp.year
+        ):
             if acquired_lot:
                 self._set_partial_amount(acquired_lot, new_acquired_lot_amount)
             (_, new_acquired_lot, _, new_acquired_lot_amount) = self.get_acquired_lot_for_taxable_event(
